@@ -13,6 +13,7 @@ type SchedCfg struct {
 	Seed     uint64
 	Depth    int   // pct change points
 	EntryPct int   // percentage of function entries that are additional yield points
+	LoopPct  int   // percentage (in 1/10 %) of loop iterations that are additional yield points
 	Explicit []int // run-length encoded decisions: task, count, task, count...
 	MaxSteps int
 }
@@ -312,6 +313,15 @@ func (s *Sched) maybeYieldAtEntry(t *Task) {
 		return
 	}
 	if s.erng.intn(100) < s.cfg.EntryPct {
+		s.yield(t)
+	}
+}
+
+func (s *Sched) maybeYieldAtLoop(t *Task) {
+	if s.cfg.LoopPct <= 0 || s.liveCount() < 2 {
+		return
+	}
+	if s.erng.intn(1000) < s.cfg.LoopPct {
 		s.yield(t)
 	}
 }
@@ -660,6 +670,101 @@ func OnceDo(o *sync.Once, f func()) {
 		sched.wakeAll()
 	}()
 	f()
+}
+
+// ---------------------------------------------------------------------------------------------
+// sync.Pool: what Get returns (a pooled object, which one, or a fresh one because the runtime dropped the pooled
+// ones at a GC or they sit in another P's cache) is up to the runtime - so the simulator decides it. The simulated
+// pool content is process state: it survives from one Layout call to the next, like the real one.
+
+type poolState struct {
+	items []any
+	vcs   [][]uint64
+}
+
+var pools = map[*sync.Pool]*poolState{}
+
+// PoolStats counts simulated pool decisions (evidence).
+var PoolStats struct{ Gets, Reused, Fresh, Puts, Dropped int }
+
+func poolOf(p *sync.Pool) *poolState {
+	st := pools[p]
+	if st == nil {
+		st = &poolState{}
+		pools[p] = st
+	}
+	return st
+}
+
+func PoolGet(p *sync.Pool) any {
+	t := cur
+	if t == nil {
+		return p.Get()
+	}
+	if sched != nil {
+		sched.yield(t)
+	}
+	st := poolOf(p)
+	g := t.G
+	PoolStats.Gets++
+	reuse, which := false, len(st.items)-1
+	if len(st.items) > 0 {
+		switch g.cfg.Adv {
+		case "", "identity", "overrides":
+			reuse = true // canonical: always hand back the most recently pooled object
+		case "reverse":
+			reuse = false // as if every pooled object had been dropped by a GC
+		default:
+			reuse = g.adv.intn(100) < 65
+			which = g.adv.intn(len(st.items))
+		}
+	}
+	g.ev(7<<40|uint64(len(st.items)), uint64(which+1))
+	if reuse {
+		x := st.items[which]
+		vc := st.vcs[which]
+		st.items = append(st.items[:which], st.items[which+1:]...)
+		st.vcs = append(st.vcs[:which], st.vcs[which+1:]...)
+		t.vcJoin(vc) // Put(x) synchronizes before the Get that returns x
+		PoolStats.Reused++
+		return x
+	}
+	PoolStats.Fresh++
+	if p.New != nil {
+		return p.New()
+	}
+	return nil
+}
+
+func PoolPut(p *sync.Pool, x any) {
+	t := cur
+	if t == nil {
+		p.Put(x)
+		return
+	}
+	if x == nil {
+		return
+	}
+	st := poolOf(p)
+	g := t.G
+	PoolStats.Puts++
+	drop := false
+	switch g.cfg.Adv {
+	case "", "identity", "overrides", "reverse":
+	default:
+		drop = g.adv.intn(100) < 15
+	}
+	g.ev(8<<40, uint64(len(st.items)))
+	if drop {
+		PoolStats.Dropped++
+	} else {
+		st.items = append(st.items, x)
+		st.vcs = append(st.vcs, append([]uint64(nil), t.vc...))
+		t.vcTick()
+	}
+	if sched != nil {
+		sched.yield(t)
+	}
 }
 
 // Go replaces a go statement inside the library: the new goroutine becomes a simulated task of
